@@ -1194,9 +1194,20 @@ def equals_hook(interp, a, b):
     if isinstance(a, (VBytes, bytes)) and isinstance(b, (VBytes, bytes)):
         if isinstance(a, bytes) and isinstance(b, bytes):
             return a == b
-        from .stream import stream_eq_goals
-        goals = stream_eq_goals(interp.ctx, to_bytes(a).atoms, to_bytes(b).atoms, "bytes==")
-        return And(*[g for _, g in goals])
+        from .stream import stream_eq_goals, Unaligned
+        ctx = interp.ctx
+        saved, ctx.recording = getattr(ctx, "recording", None), []
+        try:
+            goals = stream_eq_goals(ctx, to_bytes(a).atoms, to_bytes(b).atoms, "bytes==")
+            consts = ctx.recording
+        except Unaligned:
+            raise OutOfReach("== of byte strings that cannot be aligned field by field")
+        finally:
+            ctx.recording = saved
+        body = And(*[g for _, g in goals])
+        if isinstance(body, bool) or not consts:
+            return body
+        return z3.ForAll(consts, zbool(body))
     if isinstance(a, VFloat) and isinstance(b, VFloat):
         # IEEE ==: NaN is unequal to everything; -0.0 == +0.0 is ignored (words compared): assumption listed in the evidence
         return And(Not(isnan(zint(a.w))), Not(isnan(zint(b.w))), eq(cast_float(a, b.kind) if a.kind != b.kind and (a.kind, b.kind) in f2f else a.w, b.w))
